@@ -18,6 +18,10 @@ def make(spec):
     if k == "prop":
         r = float(spec["rate"])
         return lambda q, p: r * abs(q) * abs(p)
+    if k == "sided":
+        # proportional, with a levy on sales only (stamp duty / transaction tax style): depends on the *sign* of q
+        rb, rs = float(spec["buy"]), float(spec["sell"])
+        return lambda q, p: (rb if q > 0 else rs) * abs(q) * abs(p)
     if k == "pershare":
         per, mn = float(spec["per"]), float(spec["min"])
         return lambda q, p: max(mn, abs(q) * per)
@@ -34,13 +38,15 @@ def make(spec):
 
 def gen(rng, min_unit):
     """Draw a commission spec; constants stay below the smallest unit price."""
-    k = rng.choice(["zero", "zero", "fixed", "prop", "prop", "pershare", "tiered"])
+    k = rng.choice(["zero", "zero", "fixed", "prop", "prop", "pershare", "tiered", "sided"])
     if k == "zero":
         return {"kind": "zero"}
     if k == "fixed":
         return {"kind": "fixed", "c": round(rng.uniform(0.01, 0.4) * min_unit, 4)}
     if k == "prop":
         return {"kind": "prop", "rate": rng.choice([0.0001, 0.001, 0.0025, 0.01])}
+    if k == "sided":
+        return {"kind": "sided", "buy": rng.choice([0.0005, 0.001]), "sell": rng.choice([0.002, 0.006])}
     if k == "pershare":
         return {"kind": "pershare", "per": round(rng.uniform(0.001, 0.02) * min_unit, 6), "min": round(rng.uniform(0.01, 0.4) * min_unit, 4)}
     return {"kind": "tiered", "r1": rng.choice([0.002, 0.005]), "r2": rng.choice([0.0005, 0.001]), "thr": rng.choice([1e3, 1e4, 1e5])}
@@ -48,7 +54,7 @@ def gen(rng, min_unit):
 
 def proportional(spec):
     """size-proportional cost model (needed for scale-invariance twins)."""
-    return spec["kind"] in ("zero", "prop")
+    return spec["kind"] in ("zero", "prop", "sided")
 
 
 class Counting(object):
